@@ -8,22 +8,37 @@
         emitted  (0 (type contentEncoding conversion minLength maxLength)) | (1 exn)     codes: Spec/SchemaTruth.v, -1 = absent
         nav      (0 pytype value) | (1 exn) | (2) not observed: EBCDIC().nav(schema, buffer + pad).name(FLD).value()
         pad      the bytes that follow the item's value in the instance
-   (2 tree fillers schema ext check load sites)              one record description
+   (2 tree fillers schema ext check load sites names errors)  one record description
         schema / ext   (0 structure) | (1 exn): standard / extended generator (wire form of JLayoutCommon; the size of an
                        elementary sub-schema is the minLength = maxLength the document states)
         check    (0) check_schema passed | (1) raised | (2) not run
         load     (0) from_json returned | (1 exn) | (2) not run
         sites    ((target (class anchor)) ...) every $ref / maxItemsDependsOn and the object it is bound to
-   (3 mutation document verdict tree texts xdocument xverdict)   the document as JSON against the meta-schema
+        names    ((id unique-name) ...) the names the harness printed for the entries of the description
+        errors   ((keyword last-path-step value) ...) every error Draft202012Validator(META_SCHEMA).iter_errors reports for
+                 the document: the meta-schema keyword that failed, the last step of the path into the document, the
+                 offending value as JSON
+   (3 mutation document verdict tree texts xdocument xverdict errors)   the document as JSON against the meta-schema
         verdict  0 check_schema passed, 1 raised
         tree     the record description the document was generated from (unchanged document only; () otherwise)
         texts    ((id unique-name data-name usage picture) ...) what the generator wrote for every entry
         xdocument xverdict   the extended-vocabulary generator's document of the same description and check_schema's verdict
-        branch   4000 + mutation, + 100 when the extended document holds a decimal type (invalid by design) *)
+        errors   as in kind 2, of the unchanged standard document
+        branch   4000 + mutation, + 100 when the extended document holds a decimal type (invalid by design),
+                 + 200 when a data name begins with a digit
+
+   Known finding 7, K-digit-first-name (kinds 2 and 3): a data name of the description begins with a digit (legal COBOL), the
+   generator copies it into $anchor unchanged, the meta-schema's pattern for $anchor refuses it.  KNOWN only when the names
+   say so AND check_schema raised AND every error the validator reports is the keyword pattern on a $anchor whose value
+   is one of the digit-first names, unchanged, one error per such name AND everything else the property asks holds:
+   kind 2 - structure, lengths, loading, bound references, the extended document; kind 3 - the document with the
+   digit-first anchors prefixed by an underscore (Spec/DigitNames.v fix_anchors) is valid.  Any other failure on
+   these inputs is a VIOLATION. *)
 From Coq Require Import ZArith NArith List Bool.
 Import ListNotations.
 Require Import SR.Base.Sx SR.Base.Res SR.Base.Dec SR.Spec.Encode SR.Spec.Fits SR.Spec.Layout SR.Model.Layout
-  SR.Model.Estruct SR.Spec.SchemaTruth SR.Model.JsonType SR.Model.SchemaDoc SR.Judge.JEstructCommon SR.Judge.JLayoutCommon.
+  SR.Model.Estruct SR.Spec.SchemaTruth SR.Model.JsonType SR.Model.SchemaDoc SR.Spec.Anchor SR.Spec.DigitNames
+  SR.Judge.JEstructCommon SR.Judge.JLayoutCommon.
 Open Scope Z_scope.
 
 Definition bad_case : sx := L [A 9; A 0; L [A 0]].
@@ -235,6 +250,24 @@ Definition lengths_ok (t : item) (j : js) : bool :=
 Definition sx_of_site (s : key * desc) : sx :=
   L [sx_of_key (fst s); L [A (cls_code (fst (snd s))); sx_of_anchor (snd (snd s))]].
 
+(* ---- known finding 7: what the real validator objects to *)
+Definition s_pattern : list N := [112; 97; 116; 116; 101; 114; 110]%N.
+
+(* one error: the keyword pattern, on a $anchor, whose value is a text that begins with a digit and is one of [names] *)
+Definition anchor_error (names : list (list N)) (e : sx) : bool :=
+  str_eqb (as_Ns (nth_sx 0 e)) s_pattern && str_eqb (as_Ns (nth_sx 1 e)) k_anchor
+  && match jval_of 3 (nth_sx 2 e) with
+     | VText s => digit_first s && negb (legal s) && existsb (str_eqb s) names
+     | _ => false
+     end.
+
+(* the refusal is for the digit-first anchors and for nothing else: at least one error, every error such an anchor,
+   as many errors as digit-first names (every name is anchored once) *)
+Definition digit_refusal (names : list (list N)) (errors : list sx) : bool :=
+  match errors with [] => false | _ => forallb (anchor_error names) errors && (length errors =? length names)%nat end.
+
+Definition no_errors (errors : list sx) : bool := match errors with [] => true | _ => false end.
+
 Definition judge_tree (c : sx) : sx :=
   let t := item_of (nth_sx 1 c) in
   let fillers := as_Ns (nth_sx 2 c) in
@@ -247,14 +280,32 @@ Definition judge_tree (c : sx) : sx :=
   let raises := build_raises t in
   let site_good (s : sx) : bool :=
     okey_eqb (anchor_of (nth_sx 1 (nth_sx 1 s))) (Some (key_of (nth_sx 0 s))) in
-  let good :=
-    match (if obs_ok schema then js_of 400 (nth_sx 1 schema) else None) with
+  let names := as_list (nth_sx 8 c) in
+  let errors := as_list (nth_sx 9 c) in
+  let digit_rows := filter (fun r => digit_first (as_Ns (nth_sx 1 r))) names in
+  let jo := if obs_ok schema then js_of 400 (nth_sx 1 schema) else None in
+  let checked := as_Z (nth_sx 0 check) =? 0 in
+  (* everything the property asks except the validator's verdict (check_schema raises exactly when it reports an error) *)
+  let good_rest :=
+    match jo with
     | None => false
     | Some j =>
         valid_2020_12_shape j && incl_keys (refs_of j) (anchors_of j) && lengths_ok t j
-        && (as_Z (nth_sx 0 check) =? 0) && (as_Z (nth_sx 0 loaded) =? 0)
+        && (as_Z (nth_sx 0 loaded) =? 0)
         && forallb site_good sites && (length sites =? length (refs_of j))%nat
-        && sx_eqb ext schema
+        && sx_eqb ext schema && Bool.eqb checked (no_errors errors)
+    end in
+  let good := good_rest && checked in
+  (* known finding 7: a digit-first name, emitted as $anchor unchanged (the wire form of the schema names an entry only where
+     the emitted text IS the name the harness printed), refused by the validator for those anchors only *)
+  let digit_known :=
+    match digit_rows, jo with
+    | _ :: _, Some j =>
+        (as_Z (nth_sx 0 check) =? 1)
+        && forallb (fun r => existsb (key_eqb (KName (as_N (nth_sx 0 r)))) (anchors_of j)) digit_rows
+        && digit_refusal (map (fun r => as_Ns (nth_sx 1 r)) digit_rows) errors
+        && good_rest
+    | _, _ => false
     end in
   let mload := load (fun i => memN i fillers) m in
   let agree :=
@@ -264,14 +315,15 @@ Definition judge_tree (c : sx) : sx :=
             | Ok l => (as_Z (nth_sx 0 loaded) =? 0) && sx_eqb (L sites) (L (map sx_of_site l))
             | Err ex => obs_err loaded (exn_code ex)
             end in
-  let known := if raises then Some 5 else if occurs_elem_in_union t then Some 6 else None in
+  let known := if raises then Some 5 else if occurs_elem_in_union t then Some 6 else if digit_known then Some 7 else None in
   let branch := 3000 + (if has_odo t then 1 else 0) + (if has_redef t then 2 else 0) + (if has_table t then 4 else 0)
                 + (match fillers with [] => 0 | _ => 8 end)
-                + (if odo_ok [] t then 16 else 0) in   (* hypothesis of C08_loadable about DEPENDING ON holds *)
+                + (if odo_ok [] t then 16 else 0)      (* hypothesis of C08_loadable about DEPENDING ON holds *)
+                + (match digit_rows with [] => 0 | _ => 32 end) in   (* a data name begins with a digit *)
   verdict known good agree branch
     (L [of_bool (sx_eqb schema (L [A 0; sx_of_js m])); of_bool (sx_eqb ext schema);
         match mload with Ok l => L [A 0; L (map sx_of_site l)] | Err ex => L [A 1; A (exn_code ex)] end;
-        check; loaded]).
+        check; loaded; of_bool good_rest; of_nat (length digit_rows); of_nat (length errors)]).
 
 (* ------------------------------------------------------------------ kind 3 *)
 
@@ -336,9 +388,23 @@ Definition judge_meta (c : sx) : sx :=
   let same_x := negb has_tree || (jval_eqb (model_doc json_type_ext t tab xdoc) xdoc && Bool.eqb xv xpassed) in
   (* the unchanged document must be valid; a mutated one only ties the predicate to the validator *)
   let good := if mutation =? 0 then passed && v else true in
-  verdict None good (Bool.eqb v passed && same && same_x)
-    (4000 + mutation + (if has_tree && negb xv then 100 else 0))
-    (L [of_bool v; of_bool passed; of_bool same; of_bool same_x; of_bool xv; of_bool xpassed]).
+  (* known finding 7: a digit-first name of the description stands unchanged as $anchor, the validator refuses the document
+     for those anchors only (one error each), and with an underscore before them the document is valid *)
+  let errors := as_list (nth_sx 8 c) in
+  let digit_names := filter digit_first (map (fun r => as_Ns (nth_sx 1 r)) tab) in
+  let anchor_texts := map fst (cobols 200 doc) in
+  let fixed_valid := valid_schema 200 (fix_anchors 200 doc) in
+  let digit_known :=
+    has_tree && (mutation =? 0) && negb passed
+    && match digit_names with [] => false | _ => true end
+    && forallb (fun s => existsb (str_eqb s) anchor_texts) digit_names
+    && digit_refusal digit_names errors
+    && fixed_valid in
+  verdict (if digit_known then Some 7 else None) good (Bool.eqb v passed && same && same_x)
+    (4000 + mutation + (if has_tree && negb xv then 100 else 0)
+     + (if has_tree then match digit_names with [] => 0 | _ => 200 end else 0))
+    (L [of_bool v; of_bool passed; of_bool same; of_bool same_x; of_bool xv; of_bool xpassed; of_bool fixed_valid;
+        of_nat (length digit_names); of_nat (length errors)]).
 
 Definition judge (c : sx) : sx :=
   match as_Z (nth_sx 0 c) with
